@@ -21,7 +21,7 @@ def run_case(case):
     signal.signal(signal.SIGVTALRM, _alarm)
     sys.unraisablehook = lambda *_a: None     # the watchdog may fire inside a context that swallows exceptions
     signal.setitimer(signal.ITIMER_VIRTUAL, 3.0, 1.0)
-    world = BtpuWorld(case['mtu'])
+    world = BtpuWorld(case['mtu'], late_pop=bool(case.get('late_pop')))
     once = True
     try:
         for (k, n) in enumerate(case['lengths']):
@@ -130,6 +130,12 @@ def executions(tier, seed):
                      [(3, b''), (0, struct.pack('!I', len(data))), (9, b'abc')]][k % 4]
             case['foreign'] = [('02:00:00:00:00:03', 0, data, cuts, perm, hints)]
         out.append(case)
+    # several bundles, some fitting one frame and some segmented, left in the receive queue until the end
+    for k in range(16 if tier == 'quick' else 200):
+        mtu = rnd.choice([40, 60, 100])
+        lengths = [rnd.choice([5, 12, mtu - 19, mtu - 5, mtu + 30, 3 * mtu, 200]) for _ in range(rnd.randint(2, 5))]
+        out.append({'lengths': lengths, 'mtu': mtu, 'salt': 400 + k, 'order': lambda w: list(range(len(w.pending))),
+                    'kind': 'late-pop', 'late_pop': True})
     for k in range(8 if tier == 'quick' else 80):
         b1, b2 = data_of(rnd.choice([5, 30]), 700 + k), data_of(rnd.choice([9, 41]), 800 + k)
         comps = [([('bundle', b1), ('bundle', b2)], 'two bundle messages'),
